@@ -145,7 +145,8 @@ func newTripleSpace(thorough bool) *tripleSpace {
 // variant alphabet of the triple space: pure, ctx "c", ph "", and the maximum-length contexts
 // ... and ph under the SAME context string as the ctx member (the two must stay separated by the flag
 // byte alone, whichever of them the process saw first)
-var vSpace = []variantSpec{vPure, vCtx, vPh, {ref.Ctx, strings.Repeat("m", 254) + "x"}, {ref.Ph, strings.Repeat("m", 254) + "y"}, {ref.Ph, "c"}}
+// The two 255-byte contexts consist of formatting verbs: context bytes are never interpreted.
+var vSpace = []variantSpec{vPure, vCtx, vPh, {ref.Ctx, strings.Repeat("%d", 127) + "x"}, {ref.Ph, strings.Repeat("%v", 127) + "y"}, {ref.Ph, "c"}}
 
 func (sp *tripleSpace) build(v []int) (t triple, vs variantSpec, ok bool) {
 	vs = vSpace[v[0]]
